@@ -296,7 +296,7 @@ def run_sink(hist, check_from=0):
                 continue
             for w, l in zip(want, new):
                 if isinstance(w, str):
-                    if l != w:
+                    if not outparse.same_notice(l, w):
                         V.append(Violation('sink.notice', case, dict(step, expected=w, observed=l)))
                 else:
                     c, r = outparse.classify(l)
@@ -361,8 +361,8 @@ def hashseed_part(run, seeds):
             res.evaluations += 1
             res.transitions += len(stream)
             res.validated += 1
-            closed = re.findall(r'^Closed (\w+(?: type)?) connection (\w+)$', p.stdout, re.M)
-            new = re.findall(r'^New (\w+(?: type)?) connection (\w+)$', p.stdout, re.M)
+            closed = re.findall(r'^Closed (\w+(?: type)?) connection (\w+)(?=$|[^\w])', p.stdout, re.M)
+            new = re.findall(r'^New (\w+(?: type)?) connection (\w+)(?=$|[^\w])', p.stdout, re.M)
             case = {'hashseed': seed, 'stream': text.split('\n')}
             outs.add(explore.h64(p.stdout))
             if sorted(closed) != [('client', 'A'), ('server', 'C'), ('unknown type', 'B')] or \
